@@ -9,6 +9,12 @@ axes straight from the property text, geff's own structural + graph validation o
 store, and the tracklet definition of docs/tracking.md evaluated on the read-back graph.
 Differential only (no model): exported segmentation == stacked frames (incl. tczyx), related-object
 path resolves to it.
+
+Deepening round: (1) the DIRECTORY layer — which track file is read, which files are frames, in which order, with
+which frame index — real directories through the converter vs Geff.CtcDir.discover (stream `dir`, run_dir_stream);
+(2) the track table as TEXT — np.loadtxt with the keywords translator T8c finds in _ctc.py vs Geff.CtcTable.parseTable
+(stream `text`), and whole conversions of datasets whose table file holds a laid-out text vs tableOfText ; fromCtc
+(stream `text-e2e`, run_text_stream).
 """
 from __future__ import annotations
 
@@ -57,8 +63,11 @@ def write_dataset(case, root: Path) -> Path:
     prefix = case.get("tif_prefix", "man_track")
     for t, a in enumerate(render_frames(case)):
         tifffile.imwrite(d / f"{prefix}{t:03d}.tif", a)
-    (d / case.get("track_file", "man_track.txt")).write_text(
-        "".join(" ".join(str(v) for v in row) + "\n" for row in case["table"]))
+    if "table_text" in case:        # deepening: the table file holds this text verbatim (bytes, no newline translation)
+        (d / case.get("track_file", "man_track.txt")).write_bytes(case["table_text"].encode("utf-8"))
+    else:
+        (d / case.get("track_file", "man_track.txt")).write_text(
+            "".join(" ".join(str(v) for v in row) + "\n" for row in case["table"]))
     return d
 
 
@@ -742,9 +751,346 @@ def corpus():
         yield json.loads(f.read_text())
 
 
+
+# ================================================================= deepening: directory layer
+TRACK_FILES = ("man_track.txt", "res_track.txt")
+STRAYS = ["notes.txt", "a.TIF", "b.tiff", "x.tif.bak", ".DS_Store", "README", "T000.TIF", "man_track.tif.txt"]
+ODD_TIFS = [".hidden.tif", ".tif", "t 1.tif", "t-1.tif", "t_1.tif", "T001.tif", "é.tif", "~.tif", "1.tif", "t1.tif.tif", "zz.tif",
+            "t9.tif", "t10.tif", "t010.tif", "man_track9.tif", "man_track10.tif"]
+
+
+def dir_obs(case):
+    """real directory with the listed file names (every non-track file is a valid 2x2 tiff whose single labelled
+    pixel carries `position in the listing + 1`), converted by from_ctc_to_geff / `geff convert-ctc`; observed:
+    the exception class, or for every frame index t the NAME of the file that got it (through the label)"""
+    import tifffile
+
+    from geff.core_io import read_to_memory
+
+    warnings.simplefilter("ignore")
+    with tempfile.TemporaryDirectory(prefix="verif-c15-") as td:
+        root = Path(td)
+        d = root / "TRA"
+        names = case["names"]
+        if case["exists"]:
+            d.mkdir()
+            for k, name in enumerate(names):
+                if name in TRACK_FILES:
+                    continue
+                a = np.zeros((2, 2), dtype="uint16")
+                a[0, 0] = k + 1
+                with open(d / name, "wb") as fh:
+                    tifffile.imwrite(fh, a)
+            for tf in TRACK_FILES:
+                if tf in names:
+                    (d / tf).write_text("x y\n" if case.get("poison") == tf
+                                        else "".join(f"{k + 1} 0 0 0\n" for k in range(len(names))))
+        exc, msg = _convert({"via": case.get("via", "api")}, d, root / "out.geff", None, False)
+        obs = {"exc": exc, "msg": msg}
+        if exc is None:
+            m = read_to_memory(root / "out.geff")
+            t = [int(x) for x in m["node_props"]["t"]["values"].tolist()]
+            lab = [int(x) for x in m["node_props"]["tracklet_id"]["values"].tolist()]
+            order = sorted(zip(t, lab))
+            obs["t"] = [x for x, _ in order]
+            obs["frames"] = [names[l - 1] for _, l in order]
+        return obs
+
+
+def dir_expected_from_model(case, mo):
+    """what the Lean directory layer + the later stages predict for the conversion of a dir case"""
+    if "exc" in mo:
+        return {"exc": mo["exc"]}
+    if not mo["frames"]:
+        return {"exc": "ValueError"}            # "No nodes found" (GeffProps.C15.C15_outcome)
+    if case.get("poison") == mo["track"]:
+        return {"exc": "ValueError"}            # the chosen table file does not parse
+    return {"exc": None, "frames": mo["frames"], "t": mo["indices"]}
+
+
+def dir_oracle(case):
+    """independent of the model, from the property text and docs/convert.md: man_track.txt before res_track.txt; for a
+    CTC-conformant listing the frames in ascending numeric order of their time index, numbered 0..n-1"""
+    names = case["names"]
+    if not case["exists"] or not any(t in names for t in TRACK_FILES):
+        return {"exc": "FileNotFoundError"}
+    chosen = TRACK_FILES[0] if TRACK_FILES[0] in names else TRACK_FILES[1]
+    cf = case.get("conformant")
+    if cf is None:
+        return None
+    if not cf["idxs"] or case.get("poison") == chosen:
+        return {"exc": "ValueError"}
+    order = sorted(cf["idxs"])
+    return {"exc": None, "frames": [cf["fmt"] % i for i in order], "t": list(range(len(order)))}
+
+
+def dir_cases(rng, thorough):
+    cases = []
+
+    def tracks(rng):
+        return rng.choice([["man_track.txt"], ["res_track.txt"], ["man_track.txt", "res_track.txt"], []] +
+                          [["man_track.txt"], ["res_track.txt"]] * 2)
+
+    def finish(names, conformant=None, kind=""):
+        tr = tracks(rng)
+        names = names + tr
+        rng.shuffle(names)
+        c = {"kind": "dir", "sub": kind, "exists": rng.random() > 0.04, "names": names,
+             "via": "cli" if rng.random() < 0.2 else "api"}
+        if len(tr) == 2 or (tr and rng.random() < 0.15):
+            c["poison"] = rng.choice([None] + tr)
+        if conformant is not None:
+            c["conformant"] = conformant
+        return c
+
+    # CTC-conformant: one prefix, one width, all numbers inside the width, stray non-tif files
+    for _ in range(160 if thorough else 40):
+        pre = rng.choice(["man_track", "mask", "t", "", "seg_"])
+        w = rng.choice([1, 2, 3, 3, 4])
+        n = rng.randint(0, min(10 ** w, 12))
+        idxs = rng.sample(range(min(10 ** w, 40)), n) if rng.random() < 0.3 else list(range(n))
+        fmt = f"{pre}%0{w}d.tif"
+        names = [fmt % i for i in idxs] + rng.sample(STRAYS, rng.randint(0, 3))
+        cases.append(finish(names, {"fmt": fmt, "idxs": idxs, "class": "same-width"}, "conformant"))
+    # "%0wd" with more frames than the width holds (what `"%03d" % t` writes from frame 1000 on)
+    for n, w in ([(11, 1), (12, 1), (101, 2)] if not thorough else [(11, 1), (12, 1), (13, 1), (101, 2), (105, 2), (1001, 3)]):
+        pre = rng.choice(["man_track", "mask"])
+        fmt = f"{pre}%0{w}d.tif"
+        c = finish([fmt % i for i in range(n)], {"fmt": fmt, "idxs": list(range(n)), "class": "width-overflow"}, "overflow")
+        c.update({"exists": True, "poison": None})
+        if "man_track.txt" not in c["names"] and "res_track.txt" not in c["names"]:
+            c["names"].append("res_track.txt")
+        cases.append(c)
+    # bounded-exhaustive: every subset of <= 2 (3 in thorough) of the odd names
+    import itertools
+    pool = ODD_TIFS + STRAYS[:3]
+    subs = [list(x) for k in range(0, (3 if thorough else 2) + 1) for x in itertools.combinations(pool, k)]
+    subs = rng.sample(subs, 400 if thorough else 70)
+    for sub in subs:
+        cases.append(finish(list(sub), None, "odd-names"))
+    return cases
+
+
+# ================================================================= deepening: the table as text
+def loadtxt_kwargs(ck):
+    """the keywords of the np.loadtxt call as translator T8c found them in the current _ctc.py"""
+    g = (ck.extra.get("translator", {}).get("T8c_ctc_glue", {}) or {}).get("glue", {}) or {}
+    kw = {}
+    for k, v in g.get("loadtxtKw", [("dtype", "int"), ("ndmin", "2")]):
+        try:
+            kw[k] = eval(v, {"__builtins__": {}}, {"int": int, "float": float, "str": str, "None": None})  # noqa: S307
+        except Exception:  # noqa: BLE001
+            kw[k] = v
+    return kw
+
+
+def text_obs(item):
+    """np.loadtxt exactly as the converter calls it, on a real file holding the bytes of `text`"""
+    text, kw = item
+    warnings.simplefilter("ignore")
+    with tempfile.TemporaryDirectory(prefix="verif-c15-") as td:
+        f = Path(td) / "man_track.txt"
+        f.write_bytes(text.encode("utf-8"))
+        try:
+            a = np.loadtxt(f, **kw)
+            return {"rows": [[int(v) for v in r] for r in a.tolist()] if a.size else [], "shape": list(a.shape)}
+        except Exception as ex:  # noqa: BLE001
+            return {"exc": type(ex).__name__}
+
+
+def text_oracle(text):
+    """small independent reading of a table text (Python's own str methods): rows of ints, "ValueError", or None when
+    the text leaves the lexical subset the model covers"""
+    if any(not (ch in "\n\r\t" or 32 <= ord(ch) <= 126) for ch in text):
+        return None
+    rows = []
+    for line in text.replace("\r\n", "\n").replace("\r", "\n").split("\n"):
+        toks = [t for t in line.split("#")[0].replace("\t", " ").split(" ") if t]
+        if not toks:
+            continue
+        row = []
+        for t in toks:
+            body = t[1:] if t[0] in "+-" else t
+            if not body or any(ch not in "0123456789" for ch in body):
+                return "ValueError"
+            v = int(t)
+            if not -2 ** 63 <= v < 2 ** 63:
+                return "ValueError"
+            row.append(v)
+        rows.append(row)
+    if any(len(r) != len(rows[0]) for r in rows):
+        return "ValueError"
+    return rows
+
+
+def layout_text(rng, rows, messy=True):
+    """a laid-out rendering of `rows` (GeffModel/CtcTable.lean `renderLines`): blanks, tabs, comments, blank lines, \\n or \\r\\n"""
+    eol = rng.choice(["\n", "\n", "\r\n"]) if messy else "\n"
+    ws = lambda a, b: "".join(rng.choice(" \t") for _ in range(rng.randint(a, b)))  # noqa: E731
+    lines = []
+    for r in rows:
+        while messy and rng.random() < 0.2:
+            lines.append(ws(0, 2) + (rng.choice(["# c", "#", "#1 2 3 4"]) if rng.random() < 0.6 else ""))
+        sep = ws(1, 3) if messy else " "
+        toks = [("+" if (messy and v >= 0 and rng.random() < 0.1) else "") + ("00" if (messy and rng.random() < 0.05) else "") + str(v)
+                if v >= 0 else str(v) for v in r]
+        lines.append((ws(0, 2) if messy else "") + sep.join(toks) + (ws(0, 2) if messy else "")
+                     + (rng.choice(["# x", "#", " # 9 9"]) if (messy and rng.random() < 0.2) else ""))
+    final = rng.random() < 0.8 or not messy
+    return eol.join(lines) + (eol if (final and lines) else "")
+
+
+TEXT_FIXED = ["1 0 0 0\n", "1 0 0 0", "1 0 0 0\n\n\n", "\n\n1 0 0 0\n", "1\t0  0 \t0 \n", " 1 0 0 0\n", "1 0 0 0 # c\n", "# c\n1 0 0 0\n",
+              "1 0 0 0\n2 1 1\n", "1 0 0 0\r\n2 1 1 1\r\n", "1 0 0 0\r2 1 1 1", "", "\n", "#\n", "1.0 0 0 0\n", "+1 0 0 0\n", "-1 0 0 0\n",
+              "1_0 0 0 0\n", "0x10 0 0 0\n", "007 0 0 0\n", "1e2 0 0 0\n", "9223372036854775807 0 0 0\n", "9223372036854775808 0 0 0\n",
+              "-9223372036854775808 0 0 0\n", "-9223372036854775809 0 0 0\n", "a 0 0 0\n", "1,0,0,0\n", "1 0 0 0 5\n", "1\n", "1 0\n2 1\n",
+              "1 0 0 0#c\n2 1 1 1", "- 1 0 0\n", "--1 0 0 0\n", "+-1 0\n", "1 0 0 0\n\t\n2 0 0 0\n", "1 0 0 0\r\r\n2 1 1 1", "\r\n\r\n", "1 2\r\n\r3 4",
+              "1 0 0 0\n# 1 2\n2 1 1 1 #\n", "+ 1", "1+ 2", "1- 2", "00 -0 +0 0"]
+
+
+def text_cases(rng, thorough):
+    import itertools
+
+    out = list(TEXT_FIXED)
+    alpha = ["1", "0", "-", "+", " ", "\n", "#", ".", "\r", "\t"]
+    for n in range(0, 5 if thorough else 4):
+        out += ["".join(x) for x in itertools.product(alpha, repeat=n)]
+    for _ in range(2000 if thorough else 300):
+        k = rng.choice([1, 2, 4, 4, 4, 5])
+        rows = [[rng.choice([0, 1, 7, 12, 345, -1, -20, 2 ** 63 - 1, -2 ** 63, rng.randint(-99, 999)]) for _ in range(k)]
+                for _ in range(rng.randint(0, 5))]
+        t = layout_text(rng, rows)
+        if rng.random() < 0.3 and t:        # corrupt one character
+            i = rng.randrange(len(t))
+            t = t[:i] + rng.choice(["x", ".", ",", " 5 ", "\n", "#", "-", "e", "_", "9" * 19]) + t[i + 1:]
+        out.append(t)
+    return out
+
+
+def run_dir_stream(ck, drv, thorough):
+    """directory layer: real directories through the converter vs GeffModel/CtcDir.lean `discover` (+ oracle)"""
+    cases = [c for c in corpus() if c.get("kind") == "dir"] + dir_cases(ck.rng, thorough)
+    obs = common.pmap(dir_obs, cases, chunksize=2)
+    model = drv.ask([{"op": "dir", "exists": c["exists"], "listing": c["names"]} for c in cases])
+    if model is None:
+        ck.broken.append({"what": "driver Drivers/C15.lean (dir)", "detail": drv.broken})
+        return
+    n_conf = n_over = 0
+    for c, o, mo in zip(cases, obs, model):
+        got = {k: o.get(k) for k in ("exc", "frames", "t") if o.get(k) is not None or k == "exc"}
+        if "err" in mo:
+            ck.corr_broken("C15:driver-dir", c, got, mo)
+            continue
+        exp = dir_expected_from_model(c, mo)
+        if got != exp:
+            ck.corr_broken("C15:discover", c, {**got, "msg": o.get("msg")}, exp)
+        orc = dir_oracle(c)
+        tag = "dir|" + c.get("sub", "") + "|" + str(o.get("exc"))
+        if orc is not None and got != orc:
+            cls = (c.get("conformant") or {}).get("class")
+            if orc.get("exc") == "FileNotFoundError" or got.get("exc") == "FileNotFoundError":
+                ck.fail("C15:track-file-discovery", f"listing {c['names']} (exists={c['exists']}): outcome {got.get('exc')}, "
+                        f"expected {orc.get('exc')}", c, got, orc)
+            elif cls == "width-overflow" and got.get("exc") is None:
+                ck.fail("C15:frame-order-not-numeric", f"frames named {c['conformant']['fmt']} for T=0..{len(c['conformant']['idxs']) - 1}: "
+                        f"file order {got.get('frames')[:14]}… is not the time order", c, got.get("frames"), orc.get("frames"))
+                n_over += 1
+                tag += "|not-numeric"
+            else:
+                ck.fail("C15:frame-order", f"CTC-conformant listing {c['names']}: frames/indices {got}, expected {orc}", c, got, orc)
+        n_conf += c.get("conformant") is not None
+        ck.case({k: c[k] for k in c if k != "names"} | {"names": c["names"][:16], "n": len(c["names"])}, tag=tag,
+                nontrivial=bool(got.get("frames")))
+    ck.extra["dir_cases"] = len(cases)
+    ck.extra["dir_cases_ctc_conformant"] = int(n_conf)
+    ck.extra["dir_cases_width_overflow_misordered"] = int(n_over)
+
+
+def run_text_stream(ck, drv, thorough):
+    """the table as text: np.loadtxt as called by the converter vs GeffModel/CtcTable.lean `parseTable` (+ oracle);
+    then whole conversions of datasets whose table file holds a laid-out text vs `tableOfText` ; `fromCtc`"""
+    kw = loadtxt_kwargs(ck)
+    texts = [c["text"] for c in corpus() if c.get("kind") == "text"] + text_cases(ck.rng, thorough)
+    texts = list(dict.fromkeys(texts))
+    obs = common.pmap(text_obs, [(t, kw) for t in texts], chunksize=64)
+    model = drv.ask([{"op": "text", "text": t} for t in texts])
+    if model is None:
+        ck.broken.append({"what": "driver Drivers/C15.lean (text)", "detail": drv.broken})
+        return
+    n_unsup = n_ok = n_err = 0
+    for t, o, mo in zip(texts, obs, model):
+        orc = text_oracle(t)
+        if "err" in mo:
+            ck.corr_broken("C15:driver-text", {"kind": "text", "text": t}, o, mo)
+            continue
+        if mo.get("unsupported"):
+            n_unsup += 1
+            if orc is not None:
+                ck.corr_broken("C15:parseTable(subset)", {"kind": "text", "text": t}, orc, mo)
+            continue
+        got = o.get("exc") or o["rows"]
+        want = mo.get("exc") or [[int(v) for v in r] for r in mo["rows"]]      # integers beyond 2^53 travel as strings
+        if got != want:
+            ck.corr_broken("C15:parseTable", {"kind": "text", "text": t}, o, mo)
+        if orc is not None and got != orc:
+            ck.corr_broken("C15:parseTable(oracle)", {"kind": "text", "text": t}, o, orc)
+        n_ok += "rows" in mo
+        n_err += "exc" in mo
+        ck.case({"kind": "text", "text": t[:200]}, tag="text|" + ("rows" if "rows" in mo else mo["exc"]), nontrivial="rows" in mo and bool(mo["rows"]))
+    ck.extra["table_texts"] = {"compared": len(texts), "parsed": int(n_ok), "ValueError": int(n_err), "outside_subset": int(n_unsup),
+                               "loadtxt_kwargs": {k: str(v) for k, v in kw.items()}}
+    # ---- end to end
+    cases = [c for c in corpus() if c.get("kind") == "text-e2e"]
+    for _ in range(240 if thorough else 60):
+        c = random_case(ck.rng, thorough)
+        c.update({"preexisting": False, "overwrite": False, "kind": "text-e2e"})
+        c["table_text"] = layout_text(ck.rng, c["table"])
+        cases.append(c)
+    for _ in range(60 if thorough else 12):     # tables that do not parse / other widths
+        c = random_case(ck.rng, thorough)
+        c.update({"preexisting": False, "overwrite": False, "kind": "text-e2e", "seg": "none"})
+        how = ck.rng.choice(["float", "ragged", "two-columns", "comma", "empty"])
+        rows = c["table"]
+        if how == "float":
+            c["table_text"] = "".join(" ".join(f"{v}.0" for v in r) + "\n" for r in rows)
+        elif how == "ragged":
+            c["table_text"] = layout_text(ck.rng, rows + [[1, 0, 0]], messy=False)
+        elif how == "two-columns":
+            c["table_text"] = layout_text(ck.rng, [[r[0], r[3]] for r in rows])
+        elif how == "comma":
+            c["table_text"] = "".join(",".join(str(v) for v in r) + "\n" for r in rows)
+        else:
+            c["table_text"] = "# nothing\n\n"
+            c["table"] = []
+        c["malformed_text"] = how
+        cases.append(c)
+    obs = common.pmap(impl_obs, cases, chunksize=4)
+    model = drv.ask([{"op": "text-e2e", "ndim": o["abstract"]["ndim"], "frames": o["abstract"]["frames"], "text": c["table_text"]}
+                     for c, o in zip(cases, obs)])
+    if model is None:
+        ck.broken.append({"what": "driver Drivers/C15.lean (text-e2e)", "detail": drv.broken})
+        return
+    for c, o, mo in zip(cases, obs, model):
+        small = {k: c[k] for k in c if k != "frames"} | {"n_frames": len(c["frames"])}
+        if "err" in mo or mo.get("unsupported"):
+            ck.corr_broken("C15:driver-text-e2e", small, o.get("exc"), mo)
+            continue
+        d = compare_model(o, mo)
+        if d is not None:
+            ck.corr_broken("C15:tableOfText;fromCtc", small, {k: o.get(k) for k in ("exc", "msg", "node_ids", "edges", "axes")},
+                           {"diff": d, "model": mo})
+        tag = "text-e2e|" + str(c.get("malformed_text", "layout")) + "|" + str(o.get("exc"))
+        ab = o["abstract"]
+        if "malformed_text" not in c and is_consistent(ab["frames"], ab["table"]):
+            def fail(key, what, observed=None, expected=None, _c=c):
+                ck.fail(key, "[table written as laid-out text] " + what, _c, observed, expected)
+            tag += "|" + judge(c, o, fail)
+        ck.case(small, tag=tag, nontrivial=o.get("exc") is None)
+    ck.extra["table_text_conversions"] = len(cases)
+
 # ----------------------------------------------------------------- the check
 def run(ck: common.Check):
-    ck.prove(["GeffProps.C15", "GeffProps.C15Links", "GeffProps.C15Cli"])
+    ck.prove(["GeffProps.C15", "GeffProps.C15Links", "GeffProps.C15Cli", "GeffProps.C15Dir", "GeffProps.C15Table"])
     ck.rule = ("cases = corpus + 13 lineage templates (single frame, one-row table, gaps, late starts, 1/2/3 "
                "children, chains, two generations) x {2-D,3-D} x segmentation target {none,path,str,store} x "
                "tczyx x zarr_format x {fresh, overwrite, refuse} (all combinations in thorough, 2 sampled per "
@@ -755,10 +1101,14 @@ def run(ck: common.Check):
                "malformed stream (absent labels, empty/duplicated rows, no nodes) for the error outcomes + sequences of 2..4 "
                "conversions in one process (2-D/3-D mixes, other shapes/formats, onto fresh targets or with overwrite onto an earlier "
                "step's targets), every step compared with the model's answer for that dataset alone; "
-               "non-trivial = at least one edge expected; distinct = distinct canonical JSON of the case")
+               "non-trivial = at least one edge expected; distinct = distinct canonical JSON of the case; "
+               "deepening streams: `dir` = real directories (CTC names of widths 1-4 + strays, width-overflow sequences, all subsets of <= 2 (3) "
+               "odd names, track files man/res/both/none, missing directory, API/CLI; non-trivial = at least one frame), `text` = all strings of "
+               "length <= 3 (4) over {1,0,-,+,space,LF,#,.,CR,TAB} + fixed probes + seeded laid-out/corrupted tables through the source's np.loadtxt "
+               "call (non-trivial = at least one row), `text-e2e` = conversions with a laid-out table file")
     thorough = not ck.quick
-    cases = list(corpus())
-    n_corpus = len(cases)
+    cases = [c for c in corpus() if "kind" not in c]
+    n_corpus = len(list(corpus()))
     cases += exhaustive_cases(ck.rng, thorough)
     cases += history_cases(ck.rng, thorough)
     cases += singleton_shape_cases(ck.rng, thorough)
@@ -864,14 +1214,19 @@ def run(ck: common.Check):
             if "err" in mo or mo["shape"] != sg["shape"] or mo["chunks"] != sg["chunks"]:
                 ck.corr_broken("C15:segShape", cases[i], {"shape": sg["shape"], "chunks": sg["chunks"]}, mo)
     ck.extra["segmentation_shapes_compared_with_model"] = len(seg_idx)
+    # ---- deepening: directory layer, table text
+    run_dir_stream(ck, drv, thorough)
+    run_text_stream(ck, drv, thorough)
     ck.extra["partial"] = ("proof for the graph construction (nodes, edges, axes, validity, tracklets, outcome) and the "
-                           "segmentation array shape; tiff decoding, regionprops/centroid arithmetic, the exported pixel "
+                           "segmentation array shape, the directory layer and the table text; tiff decoding, regionprops/centroid arithmetic, the exported pixel "
                            "data and the related-object path are differential tests only")
     ck.extra.update({"segmentation_exports_compared": int(n_seg), "through_cli": int(n_cli),
                      "geff_tracklet_validator_agrees_with_oracle": int(n_validator_agrees)})
     ck.assumptions += [
         "tifffile decoding, skimage.regionprops (ascending labels, centroid = mean pixel coordinate, checked to 1e-9 "
-        "on every case), np.loadtxt parsing, zarr array I/O and write_arrays are exercised, not modelled",
+        "on every case), zarr array I/O and write_arrays are exercised, not modelled; np.loadtxt is modelled inside the lexical "
+        "subset printable ASCII / tab / LF / CR (GeffModel/CtcTable.lean), the directory layer for directories of regular files "
+        "(GeffModel/CtcDir.lean)",
         "the theorems are about the abstract dataset (regions per frame in ascending label order + table rows); "
         "`consistent` = labels of rows with a parent occur, parent's last frame < child's first frame, one parent row per label",
         "segmentation export and related-object path: differential test only (partial)",
@@ -882,6 +1237,19 @@ def run(ck: common.Check):
 
 def replay(rp):
     c = rp["case"]
+    if c.get("kind") == "dir":
+        o = dir_obs(c)
+        orc = dir_oracle(c)
+        got = {k: o.get(k) for k in ("exc", "frames", "t") if o.get(k) is not None or k == "exc"}
+        print(json.dumps({"names": c["names"], "observed": got, "msg": o.get("msg"), "expected": orc}, default=str))
+        bad = orc is not None and got != orc
+        print("REPLAY: property FAILS on this input" if bad else "REPLAY: property holds on this input")
+        return 1 if bad else 0
+    if c.get("kind") == "text":
+        o = text_obs((c["text"], {"dtype": int, "ndmin": 2}))
+        print(json.dumps({"text": c["text"], "observed": o, "oracle": text_oracle(c["text"])}, default=str))
+        print("REPLAY: property holds on this input")
+        return 0
     if "seq" in c:
         fails = []
         so = impl_seq(c)
